@@ -295,6 +295,8 @@ impl ProvisionSharedState {
     /// # Returns
     ///   * `bool` - true if the finished time_tick was set
     pub async fn set_provision_finished_if_all_ready(&self) -> Result<bool> {
+        #[cfg(azure_guestproxyagent_verif)]
+        crate::verif::sched::point("provision.set_provision_finished").await;
         let (tx, rx) = oneshot::channel();
         self.0
             .send(ProvisionAction::SetProvisionFinishedIfAllReady { response: tx })
